@@ -1,12 +1,12 @@
 #!/bin/sh
 # usage: tools/try_seed.sh <patch.diff> <PID> [extra check args]
-# applies a seeded defect to /repo, runs the check, always reverts.
+# applies a seeded defect to /repo, runs the check, ALWAYS reverts (also when interrupted).
 p="$1"; pid="$2"; shift 2
 cd /repo || exit 9
 git diff --quiet || { echo "/repo not clean"; exit 9; }
+trap 'git -C /repo checkout -- .; rm -f /tmp/try_seed.$$.log' EXIT INT TERM
 git apply "$p" || { echo "patch does not apply"; exit 9; }
 cd /verif
-./check "$pid" "$@" > /tmp/try_seed.$$.log 2>&1; rc=$?
+timeout ${SEED_TIMEOUT:-1800} ./check "$pid" "$@" > /tmp/try_seed.$$.log 2>&1; rc=$?
 git -C /repo checkout -- .
 echo "rc=$rc"; grep -E "^VIOLATION|^INCONCLUSIVE|^OK|^KNOWN|unit=" /tmp/try_seed.$$.log | cut -c1-300 | head -12
-rm -f /tmp/try_seed.$$.log
